@@ -114,7 +114,7 @@ func wConfig(prop, tier string) *Config {
 	switch prop {
 	case "C01":
 		ops := []string{"swap_in_p1_usdc_atom_D", "swap_in_p1_usdc_atom_L", "swap_in_p1_usdc_atom_XL", "swap_in_p1_atom_usdc_L", "swap_out_p1_usdc_atom_L", "swap_out_p1_atom_usdc_D", "join_p1_single_atom_t2",
-			"swap_in_p2_usdc_elys_L", "swap_in_p2_elys_usdc_D", "swap_out_p2_elys_usdc_L", "swap_in_2hop_elys_atom_L", "swap_out_2hop_atom_elys_L", "swap_batch_opposite_p1", "swap_in_samepool_p1_usdc_atom_usdc", "swap_in_samepool_p2_elys_usdc_elys", "swap_out_samepool_p2_usdc_elys_usdc", "feed_ext_liquidity_p1_deep", "feed_ext_liquidity_p1_thin", "exit_p1_single_uusdc_largest_accepted_lp1", "exit_p1_single_uatom_largest_accepted_lp1",
+			"swap_in_p2_usdc_elys_L", "swap_in_p2_elys_usdc_D", "swap_out_p2_elys_usdc_L", "swap_in_2hop_elys_atom_L", "swap_out_2hop_atom_elys_L", "swap_batch_opposite_p1", "swap_batch_tight_twice_atom_usdc_plus_opposite_large_p1", "swap_in_samepool_p1_usdc_atom_usdc", "swap_in_samepool_p2_elys_usdc_elys", "swap_out_samepool_p2_usdc_elys_usdc", "feed_ext_liquidity_p1_deep", "feed_ext_liquidity_p1_thin", "exit_p1_single_uusdc_largest_accepted_lp1", "exit_p1_single_uatom_largest_accepted_lp1",
 			"join_p1_all_t1", "join_p1_single_usdc_t1", "join_p2_all_t1", "exit_p1_10pct_lp1", "exit_p1_single_atom_lp1", "exit_p2_allbut1_lp1",
 			"perp_open_long_t1", "perp_open_long_atomcoll_t1", "perp_open_short_t2", "perp_close_half_t1", "perp_close_full_t2", "perp_bot_close_all",
 			"llp_open_t1_x3", "llp_close_full_t1", "create_pool_lp1", "price_atom_3", "price_atom_8", "fee_tx_uatom", "fee_tx_uelys", "gap_1d", "donate_p1_atom", "donate_p2_usdc", "empty"}
@@ -182,6 +182,12 @@ func wConfig(prop, tier string) *Config {
 		} else {
 			cfg.Phases = []Phase{{Name: "full-depth2", Roots: roots01, Ops: ops, Depth: 2, Dev: 2}}
 		}
+		// the accounted pool follows EVERY exit of the pool, also the forced closes of leveraged-LP
+		// positions (the only exits with the liquidation flag), from the roots where such a close collides
+		// with a guard of the after-exit hook chain (R5: the position holds most of the pool) or several
+		// happen in one sweep (R7, R14)
+		llpForced := []string{"price_atom_1", "price_atom_2", "price_atom_3", "empty", "gap_61m", "llp_bot_close_all", "llp_bot_close_all_at_1", "llp_bot_close_all_at_2", "llp_bot_stoploss_all_at_4", "llp_close_full_t1", "perp_open_long_t3_huge", "perp_open_short_t2", "exit_p1_90pct_lp1"}
+		cfg.Phases = append(cfg.Phases, Phase{Name: "llp-forced-closes-depth2", Roots: []string{"R1", "R5", "R7", "R14"}, Ops: llpForced, Depth: 2, Dev: 2})
 	case "C12":
 		ops := []string{"bond_lp1_L", "unbond_lp2_half", "unbond_lp1_all", "join_p1_all_t1", "exit_p1_all_t1", "exit_p1_10pct_lp1", "join_p2_all_t1", "exit_p2_all_t1", "llp_open_t1_x3", "llp_close_full_t1", "llp_bot_close_all", "mc_claim_lp1", "commit_eden_lp1", "commit_edenb_lp1", "uncommit_eden_lp1",
 			"vest_eden_lp1", "cancel_vest_lp1", "claim_vesting_lp1", "stake_elys_lp1", "unstake_elys_lp1", "gap_59m", "gap_61m", "price_atom_2", "empty", "exit_p2_all_lp1", "unbond_lp2_all", "estaking_withdraw_lp1", "unstake_elys_lp1_all", "uncommit_eden_lp1_all", "uncommit_edenb_lp1_all", "stake_eden_lp1", "unstake_eden_lp1", "unstake_elys_lp1_60pct", "unstake_elys_lp1_90pct", "llp_open_t2_x5", "llp_close_full_t2_at_1", "llp_close_full_t1_at_1", "llp_bot_close_all_at_1"}
@@ -223,7 +229,7 @@ func wConfig(prop, tier string) *Config {
 			"perp_open_long_t1_dust", "perp_open_short_t2_dust", "perp_open_long_t3_x5", "perp_close_full_t1", "perp_bot_close_all", "llp_open_t3_dust", "llp_open_t2_x5", "llp_close_allbut1_t1", "llp_bot_close_all", "unbond_lp2_all", "bond_lp1_D",
 			"fee_tx_uusdc", "fee_tx_uatom", "fee_tx_uelys", "fee_tx_uatom_nofeed", "fee_tx_uelys_nofeed", "mc_claim_lp1", "claim_vesting_lp1", "vest_eden_lp1", "unstake_elys_lp1", "send_elys_to_burn_addr",
 			"price_atom_2", "price_atom_1", "price_atom_12", "nofeed", "nofeed_2d", "gap_1h", "gap_2d", "gap_8d", "gap_40d", "empty",
-			"ext_incentive_now_lp1", "ext_incentives_two_new_denoms_lp1", "swap_batch_opposite_p1", "llp_open_t1_x3_stoploss", "perp_open_long_t1_stoploss",
+			"ext_incentive_now_lp1", "ext_incentives_two_new_denoms_lp1", "swap_batch_opposite_p1", "swap_batch_tight_twice_usdc_atom_plus_opposite_small_p1", "swap_batch_tight_twice_usdc_atom_plus_opposite_large_p1", "swap_batch_tight_twice_atom_usdc_plus_opposite_small_p1", "swap_batch_tight_twice_atom_usdc_plus_opposite_large_p1", "llp_open_t1_x3_stoploss", "perp_open_long_t1_stoploss",
 			"estaking_withdraw_reward_lp1", "stake_eden_lp1", "tier_set_portfolio_t1", "feed_ext_liquidity_p1_deep", "feed_ext_liquidity_p1_thin", "feed_ext_liquidity_p1_depth1", "exit_p1_single_uusdc_largest_accepted_lp1", "join_p1_duplicate_denom_t1", "join_p1_unsorted_t1", "join_p2_duplicate_pair_t1"}
 		cfg.Oracles = []*Oracle{OracleC18()}
 		cfg.BlockFailure = true
